@@ -1,12 +1,15 @@
 import OZ.DrvUtil
-import OZ.Model.TimelockController
+import OZ.Model.TimelockControllerMon
 /-
 Driver for C09 (self-administered timelock controller). `op` runs the model
 OZ.TimelockController on the op lines of harness/src/bin/c09.rs and prints the model's
 observation in the harness's format.
 
-`mon` is the monitor; it never calls the model. On every implementation observation it checks
-the property's conclusion directly:
+`mon` is the monitor: it never calls the model. Here it only PARSES the op line and the
+implementation's observation (`parseLine`, `parseObs`) and calls
+`OZ.TimelockController.Mon.checkCore` (OZ/Model/TimelockControllerMon.lean), which is proved sound in
+OZ/Props/C09Mon.lean (`monitor_accepts_every_model_trace`). On every implementation observation
+the core checks the property's conclusion directly:
   * an accepted admin-only call on a self-administered controller (reported admin = the
     controller) carried a descriptor, the operation (controller, fn, args,
     predecessor, salt) of exactly that call was reported Ready before and is reported Done after,
@@ -26,10 +29,9 @@ the property's conclusion directly:
     corresponding kind; a rejected call changes nothing; Done stays Done.
 -/
 namespace OZ.Drv.C09
-open OZ.Drv OZ.Timelock OZ.TimelockController OZ.Host
+open OZ.Drv OZ.Timelock OZ.TimelockController OZ.TimelockController.Mon OZ.Host
 
 def MAX_TTL : Nat := 6312000
-def NACC : Nat := 5
 
 /-- "1.2.3" / "-" -/
 def dotList (s : String) : List Nat :=
@@ -116,30 +118,10 @@ def parseToks (_self : Nat) (s : String) (metas : List Meta) (ctxs : List Contex
       | _ => none
     else none)
 
-def sortNat (l : List Nat) : List Nat := l.mergeSort (· ≤ ·)
+-- `sortNat`, `showDots`, `showSt`, `showRoles`, `showRadm`, `showStates`, `showCalls`, `showRaw` are
+-- defined in OZ/Model/TimelockControllerMon.lean (shared with `modelObs`)
 
-def showDots (l : List Nat) : String :=
-  if l.isEmpty then "-" else ".".intercalate ((sortNat l).map toString)
-
-def showSt (s : Timelock.State) (id : Id) : String :=
-  let c := match getOperationState s id with
-    | .unset => "U" | .waiting => "W" | .ready => "R" | .done => "D"
-  s!"{c}:{getOperationLedger s id}"
-
-def showState (m : M) : String :=
-  let c := m.c
-  let min := match c.tl.minDelay with | some d => toString d | none => "-"
-  let admin := match c.admin with | some a => toString a | none => "-"
-  let roles := "/".intercalate ((List.range 4).map (fun r =>
-    showDots ((List.range (NACC + 1)).filter (fun a => c.hasRole r a))))
-  let radm := "/".intercalate ((List.range 4).map (fun r =>
-    match OZ.Access.getRoleAdmin c.ac r with | some ar => toString ar | none => "-"))
-  let st := if m.defs.isEmpty then "-" else ",".intercalate (m.defs.map (fun d => showSt c.tl d.id))
-  let cs := c.tl.calls.filter (fun x => x.1 = 9)
-  let calls := match cs with
-    | [] => "0:-:-"
-    | (_, f, a) :: _ => s!"{cs.length}:{f}:{(a.headD 0) / 3}"
-  s!"now={c.tl.now} min={min} admin={admin} roles={roles} radm={radm} st={st} calls={calls}"
+def showState (m : M) : String := s!"now={m.c.tl.now} {showRaw m.c m.defs}"
 
 /-- decode typed argument tokens of an admin entry point -/
 def argNums (a : String) : List Nat :=
@@ -218,19 +200,91 @@ def stepLine (m : M) (line : String) : M × String :=
       | .error _ => (m, s!"err {showState m}")
   | _ => (m, "bad-op")
 
-/-! ### the monitor (implementation side only) -/
+/-! ### the monitor (implementation side only): parsing, then `OZ.TimelockController.Mon.checkCore`
 
-structure Obs where
-  ok : Bool
-  eq : Option (List Nat)
-  now : Nat
-  min : Option Nat
-  admin : Option Nat
-  roles : List (List Nat)
-  radm : List (Option Nat)
-  st : List (String × Nat)
-  raw : String                -- everything after the tag (and `eq=`), for "nothing changed"
-  calls : String
+Not covered by the soundness theorem (string level, this file): `parseLine` and its helpers
+(`parseRefM`, `parseMetasM`, `parseCtxM`, `parseAuthM`, `parseCallM`), `parseObs`, and the alarm
+`site=controller.parse unparsable observation`. Everything else the monitor does is `checkCore`. -/
+
+def parseRefM (r : String) : Ref :=
+  if r = "z" then .z
+  else if r.startsWith "r" then
+    match (r.drop 1).toString.toNat? with
+    | some n => .raw n
+    | none => .bad
+  else if r.startsWith "o" then
+    match (r.drop 1).toString.toNat? with
+    | some k => .op k
+    | none => .bad
+  else .bad
+
+/-- `none` | `e` (empty vector) | `p:s:e;p:s:e` -/
+def parseMetasM (s : String) : Option (List MetaM) :=
+  if s = "none" then none
+  else if s = "e" then some []
+  else (s.splitOn ";").mapM (fun t =>
+    match t.splitOn ":" with
+    | [p, sa, e] => do pure { p := parseRefM p, s := (← sa.toNat?), e := e.toNat? }
+    | _ => none)
+
+def parseCtxM (s : String) : CtxM :=
+  if s = "create" then .create
+  else if s.startsWith "k" then
+    match (s.drop 1).toString.toNat? with
+    | some k => .defk k
+    | none => .bad
+  else
+    match s.splitOn ":" with
+    | ["c", t, f, a] =>
+      match t.toNat?, f.toNat? with
+      | some t, some f => .call t f (encArgs a)
+      | _, _ => .bad
+    | _ => .bad
+
+def parseCtxsM (s : String) : List CtxM := if s = "e" then [] else (s.splitOn ";").map parseCtxM
+
+def parseAuthM (s : String) : List AuthM :=
+  if s = "" ∨ s = "-" then [] else
+  (s.splitOn ",").filterMap (fun t =>
+    if t.startsWith "c" then (t.drop 1).toString.toNat?.map AuthM.call
+    else if t.startsWith "x" then
+      match (t.drop 1).toString.splitOn "@" with
+      | [i, j] =>
+        match i.toNat?, j.toNat? with
+        | some i, some j => some (.exec i j)
+        | _, _ => none
+      | _ => none
+    else none)
+
+def parseCallM (kind : String) (rest : List String) : Mon.Call :=
+  let nums := argNums ((kv? rest "a").getD "-")
+  match kind with
+  | "sched" => .sched ((kvNat? rest "k").getD 9999) ((kvNat? rest "d").getD 0) ((kvNat? rest "by").getD 99)
+  | "cancel" => .cancel (parseRefM ((kv? rest "i").getD "?")) ((kvNat? rest "by").getD 99)
+  | "exec" => .exec ((kvNat? rest "k").getD 9999) ((kv? rest "ex").bind String.toNat?) ((kvNat? rest "callok").getD 0)
+  | "update" => match nums with | [d] => .update d | _ => .other kind
+  | "grant" => match nums with | [a, r, k] => .grant a r k | _ => .other kind
+  | "revoke" => match nums with | [a, r, k] => .revoke a r k | _ => .other kind
+  | "renrole" => match nums with | [r, k] => .renrole r k | _ => .other kind
+  | "setradm" => match nums with | [r, ar] => .setradm r ar | _ => .other kind
+  | "transfer" => match nums with | [a, lu] => .transfer a lu | _ => .other kind
+  | "renounce" => .renounce
+  | "accept" => .accept
+  | "check" => .check ((parseMetasM ((kv? rest "metas").getD "e")).getD []) (parseCtxsM ((kv? rest "ctxs").getD "e"))
+  | "advance" => .advance ((kvNat? rest "n").getD 0)
+  | other => .other other
+
+def parseLine (ws : List String) : Line :=
+  let kind := (ws.drop 1).head?.getD ""
+  let rest := ws.drop 2
+  if kind = "def" then
+    match kvNat? rest "t", kvNat? rest "f", kv? rest "a", kv? rest "p", kvNat? rest "s" with
+    | some t, some f, some a, some p, some s => .defn t f (encArgs a) (parseRefM p) s
+    | _, _, _, _, _ => .badDef
+  else
+    .call { call := parseCallM kind rest,
+            sig := parseMetasM ((kv? rest "sig").getD "none"),
+            auth := parseAuthM ((kv? rest "auth").getD "-") }
 
 def parseObs (line : String) : Option Obs :=
   match words line with
@@ -252,360 +306,17 @@ def parseObs (line : String) : Option Obs :=
            raw := s!"min={minS} admin={adminS} roles={rolesS} radm={radmS} st={stS} calls={calls}", calls }
   | _ => none
 
-/-- a defined operation as the monitor sees it: target, fn, argument text, predecessor key, salt -/
-structure DefM where
-  t : Nat
-  f : Nat
-  a : String
-  p : String
-  s : Nat
-  key : String
-
-/-- what the accepted calls seen so far say about an operation (the monitor's own ghost log) -/
-inductive G where
-  | unset
-  | pending (l d : Nat)      -- accepted schedule at ledger `l` with delay `d`, nothing since
-  | done
-  deriving DecidableEq
-
-structure Mon where
-  defs : List DefM
-  prev : Option Obs
-  ghost : List (String × G)  -- keyed by the canonical tuple text, newest binding first
-
-def Mon.get (m : Mon) (k : String) : G :=
-  match m.ghost.find? (fun p => p.1 = k) with
-  | some (_, g) => g
-  | none => .unset
-
-def Mon.set (m : Mon) (k : String) (g : G) : Mon := { m with ghost := (k, g) :: m.ghost }
-
-/-- "the scheduled delay has fully elapsed": `l + d ≤ now`, or the saturated corner -/
-def elapsedM (l d now : Nat) : Bool :=
-  decide (l + d ≤ now) || (decide (l + d > 4294967295) && decide (now = 4294967295))
-
-def satU32 (a b : Nat) : Nat := if a + b > 4294967295 then 4294967295 else a + b
-
-/-- state and ledger value the accepted history prescribes at ledger `now` -/
-def expectedSt (g : G) (now : Nat) : String × Nat :=
-  match g with
-  | .unset => ("U", 0)
-  | .done => ("D", 1)
-  | .pending l d => if elapsedM l d now then ("R", satU32 l d) else ("W", satU32 l d)
-
-def refKey (defs : List DefM) (r : String) : String :=
-  if r = "z" then "raw0"
-  else if r.startsWith "r" then "raw" ++ (r.drop 1).toString
-  else match (r.drop 1).toString.toNat? with
-    | some k => match defs[k]? with | some d => d.key | none => "?"
-    | none => "?"
-
-structure MetaM where
-  p : String      -- predecessor key
-  s : Nat
-  e : Option Nat
-
-def parseMetasM (defs : List DefM) (s : String) : Option (List MetaM) :=
-  if s = "none" then none
-  else if s = "e" then some []
-  else (s.splitOn ";").mapM (fun t =>
-    match t.splitOn ":" with
-    | [p, sa, e] => do pure { p := refKey defs p, s := (← sa.toNat?), e := e.toNat? }
-    | _ => none)
-
-/-- index of a defined operation with this tuple -/
-def findDef (defs : List DefM) (t f : Nat) (a p : String) (s : Nat) : Option Nat :=
-  (List.range defs.length).find? (fun k =>
-    match defs[k]? with
-    | some d => d.t = t ∧ d.f = f ∧ d.a = a ∧ d.p = p ∧ d.s = s
-    | none => false)
-
-def stCode (o : Obs) (k : Nat) : String := match o.st[k]? with | some (c, _) => c | none => "?"
-
-/-- the consumption the property demands for one authorized call `(fn, args)` on the controller
-with descriptor `m` (index `j` in the payload): a defined operation with exactly this tuple,
-reported Ready before and Done after; executors as configured before the call -/
-def consumed (m : Mon) (prev o : Obs) (f : Nat) (a : String) (md : MetaM) (j : Nat) (auth : List String) : Option String :=
-  match findDef m.defs 0 f a md.p md.s with
-  | none => some s!"no operation (controller, fn {f}, {a}, {md.p}, salt {md.s}) was ever scheduled"
-  | some k =>
-    let key := match m.defs[k]? with | some d => d.key | none => "?"
-    let early : Option String :=
-      match m.get key with
-      | .pending l d =>
-        if elapsedM l d prev.now then none
-        else some s!"operation {k} for this call was scheduled at ledger {l} with delay {d}: that delay has not elapsed at ledger {prev.now}"
-      | .unset => some s!"operation {k} for this call is not scheduled (or was cancelled) according to the accepted history"
-      | .done => some s!"operation {k} for this call was already executed according to the accepted history"
-    if early.isSome then early
-    else if stCode prev k ≠ "R" then some s!"operation {k} for this call was {stCode prev k}, not Ready, before the call"
-    else if stCode o k ≠ "D" then some s!"operation {k} for this call is {stCode o k}, not Done, after the call"
-    else
-      let execs := prev.roles[1]?.getD []
-      if execs.isEmpty then none
-      else match md.e with
-        | none => some "executors are configured but no executor was named"
-        | some x =>
-          if ¬ execs.contains x then some s!"named executor {x} does not hold the executor role"
-          else if ¬ auth.contains s!"x{x}@{j}" then some s!"executor {x} did not authorize the execute tuple"
-          else none
-
-def ctxCall (defs : List DefM) (s : String) : Option (Nat × Nat × String) :=
-  if s.startsWith "k" then
-    match (s.drop 1).toString.toNat? with
-    | some k => (defs[k]?).map (fun d => (d.t, d.f, d.a))
-    | none => none
-  else match s.splitOn ":" with
-    | ["c", t, f, a] => do pure ((← t.toNat?), (← f.toNat?), a)
-    | _ => none
-
-/-- every reported operation state and ledger value against the monitor's ghost log -/
-def checkStates (m : Mon) (o : Obs) : Option String :=
-  let bad := (List.range o.st.length).filterMap (fun k =>
-    match m.defs[k]?, o.st[k]? with
-    | some d, some (c, l) =>
-      let ex := expectedSt (m.get d.key) o.now
-      if c = "X" then
-        some s!"site=controller.views operation {k} {d.key}: the controller's operation_exists / is_operation_pending / is_operation_ready / is_operation_done views disagree with get_operation_state"
-      else if ex ≠ (c, l) then
-        some s!"site=controller.state operation {k} {d.key}: reported {c}:{l} but the accepted history prescribes {ex.1}:{ex.2} at ledger {o.now}"
-      else none
-    | _, _ => none)
-  bad.head?
-
-/-- the operations the accepted call `(kind, …)` consumed, as far as the op line identifies them -/
-def consumedKeys (m : Mon) (kind : String) (rest : List String) : List String :=
-  let keyOf := fun (f : Nat) (a : String) (md : MetaM) =>
-    (findDef m.defs 0 f a md.p md.s).bind (fun k => (m.defs[k]?).map (·.key))
-  if kind = "check" then
-    let metas := (parseMetasM m.defs ((kv? rest "metas").getD "e")).getD []
-    let ctxS := (kv? rest "ctxs").getD "e"
-    let ctxs := if ctxS = "e" then [] else ctxS.splitOn ";"
-    (List.range ctxs.length).filterMap (fun j =>
-      match ctxCall m.defs (ctxs[j]?.getD "?"), metas[j]? with
-      | some (0, f, a), some md => keyOf f a md
-      | _, _ => none)
-  else
-    let f := if kind = "update" then 0 else if kind = "grant" then 1 else if kind = "revoke" then 2
-      else if kind = "transfer" then 3 else if kind = "setradm" then 5 else if kind = "renrole" then 6 else 4
-    match parseMetasM m.defs ((kv? rest "sig").getD "none") with
-    | some (md :: _) => (keyOf f ((kv? rest "a").getD "-") md).toList
-    | _ => []
-
-/-- admin-only entry points (`enforce_admin_auth`): the admin authorizes -/
-def isAdminKind' (kind : String) : Bool :=
-  kind = "update" || kind = "transfer" || kind = "renounce" || kind = "setradm"
-
-/-- entry points authorized by a caller named in the arguments -/
-def isCallerKind (kind : String) : Bool := kind = "grant" || kind = "revoke" || kind = "renrole"
-
-/-- the caller argument of `grant a.r.k` / `revoke a.r.k` / `renrole r.k` -/
-def callerOf (kind : String) (rest : List String) : Option Nat :=
-  let nums := argNums ((kv? rest "a").getD "-")
-  if kind = "renrole" then nums[1]? else nums[2]?
-
-/-- the monitor's ghost log after an ACCEPTED call at ledger `now` -/
-def ghostStep (m : Mon) (kind : String) (rest : List String) (now : Nat) (prevAdmin : Option Nat) : Mon :=
-  if kind = "sched" then
-    match m.defs[(kvNat? rest "k").getD 9999]? with
-    | some d => m.set d.key (.pending now ((kvNat? rest "d").getD 0))
-    | none => m
-  else if kind = "cancel" then m.set (refKey m.defs ((kv? rest "i").getD "?")) .unset
-  else if kind = "exec" then
-    match m.defs[(kvNat? rest "k").getD 9999]? with
-    | some d => m.set d.key .done
-    | none => m
-  else if kind = "check" ∨ (isAdminKind' kind ∧ prevAdmin = some 0) ∨
-      (isCallerKind kind ∧ callerOf kind rest = some 0) then
-    (consumedKeys m kind rest).foldl (fun acc k => acc.set k .done) m
-  else m
-
-def fnOfKind (kind : String) : Nat :=
-  if kind = "update" then 0 else if kind = "grant" then 1 else if kind = "revoke" then 2
-  else if kind = "transfer" then 3 else if kind = "setradm" then 5 else if kind = "renrole" then 6 else 4
-
-def isAdminKind (kind : String) : Bool := isAdminKind' kind
-
 def check (m : Mon) (opl obs : String) : Mon × Option String :=
   match parseObs obs with
   | none => (m, some s!"site=controller.parse unparsable observation {obs}")
-  | some o =>
-    let ws := words opl
-    let kind := (ws.drop 1).head?.getD ""
-    let rest := ws.drop 2
-    let auth := ((kv? rest "auth").getD "-").splitOn ","
-    let prevAdmin := m.prev.bind (·.admin)
-    let fin (m' : Mon) (f : Option String) : Mon × Option String :=
-      let mg := if o.ok then ghostStep m' kind rest o.now prevAdmin else m'
-      ({ mg with prev := some o }, f.orElse (fun _ => checkStates mg o))
-    if kind = "def" then
-      match kvNat? rest "t", kvNat? rest "f", kv? rest "a", kv? rest "p", kvNat? rest "s" with
-      | some t, some f, some a, some p, some s =>
-        let pk := refKey m.defs p
-        let key := s!"op({t},{f},{a},{pk},{s})"
-        let same := (List.range m.defs.length).filter (fun j => (m.defs[j]?).map (·.key) = some key)
-        let m' := { m with defs := m.defs ++ [{ t, f, a, p := pk, s, key }] }
-        fin m' (if o.eq ≠ some same then
-          some s!"site=controller.id operation {key}: ids equal to those of definitions {o.eq.getD []}, tuples equal to {same}"
-          else none)
-      | _, _, _, _, _ => fin m (some "site=controller.parse bad def line")
-    else
-    match m.prev with
-    | none => fin m none
-    | some prev =>
-      -- Done stays Done, whatever happens
-      -- across an idle gap nothing stored may change: only Waiting → Ready, by time
-      let idle : Option String :=
-        if kind ≠ "advance" then none
-        else
-          let n := (kvNat? rest "n").getD 0
-          if o.min ≠ prev.min then some s!"site=controller.idle.lost the minimum delay changed over an idle gap of {n} ledgers"
-          else if o.admin ≠ prev.admin then some s!"site=controller.idle.lost the admin changed over an idle gap of {n} ledgers"
-          else if o.roles ≠ prev.roles then some s!"site=controller.idle.lost role membership changed over an idle gap of {n} ledgers"
-          else if o.radm ≠ prev.radm then some s!"site=controller.idle.lost a role admin changed over an idle gap of {n} ledgers"
-          else if o.calls ≠ prev.calls then some s!"site=controller.idle.lost the target was called during an idle gap"
-          else
-            ((List.range prev.st.length).filterMap (fun k =>
-              match prev.st[k]?, o.st[k]? with
-              | some (a, la), some (b, lb) =>
-                if a = b ∧ la = lb then none
-                else if a = "W" ∧ b = "R" ∧ la = lb ∧ lb ≤ o.now then none
-                else some s!"site=controller.idle.lost operation {k}: {a}:{la} before an idle gap of {n} ledgers, {b}:{lb} after it"
-              | _, _ => none)).head?
-      if idle.isSome then fin m idle else
-      let undone := (List.range prev.st.length).find? (fun k => stCode prev k = "D" ∧ stCode o k ≠ "D")
-      if undone.isSome then fin m (some s!"site=controller.done operation {undone.getD 0} was Done and is {stCode o (undone.getD 0)}") else
-      if ¬ o.ok then
-        fin m (if o.raw ≠ prev.raw ∨ o.now ≠ prev.now then some "site=controller.rollback a rejected call changed the observable state" else none)
-      else
-      -- effects need a cause
-      let effect : Option String :=
-        if o.min ≠ prev.min ∧ kind ≠ "update" then some s!"site=controller.effect.min minimum delay changed by `{kind}`"
-        else if o.roles ≠ prev.roles ∧ ¬ isCallerKind kind then some s!"site=controller.effect.roles role membership changed by `{kind}`"
-        else if o.radm ≠ prev.radm ∧ kind ≠ "setradm" then some s!"site=controller.effect.radm a role admin changed by `{kind}`"
-        else if o.admin ≠ prev.admin ∧ kind ≠ "accept" ∧ kind ≠ "renounce" then some s!"site=controller.effect.admin admin changed by `{kind}`"
-        else
-          -- operations are consumed (→ Done) only by admin calls, `__check_auth` and execute_op
-          let newlyDone := (List.range o.st.length).find? (fun k => stCode prev k ≠ "D" ∧ stCode o k = "D")
-          if newlyDone.isSome ∧ ¬ isAdminKind kind ∧ ¬ isCallerKind kind ∧ kind ≠ "check" ∧ kind ≠ "exec" then
-            some s!"site=controller.effect.done an operation became Done by `{kind}`"
-          else none
-      if effect.isSome then fin m effect else
-      -- the controller's own authorization: a descriptor whose operation for exactly this call was consumed
-      let selfAuth (a : String) (f : Nat) : Option String :=
-        match parseMetasM m.defs ((kv? rest "sig").getD "none") with
-        | none => some s!"site=controller.admin.unconsumed `{kind} {a}` accepted on the controller's own authority without any payload for the controller"
-        | some (md :: _) =>
-          (consumed m prev o f a md 0 auth).map (fun why =>
-            s!"site=controller.admin.unconsumed `{kind} {a}` accepted on the controller's own authority but {why}")
-        | some [] => some s!"site=controller.admin.unconsumed `{kind} {a}` accepted on the controller's own authority with 0 operation descriptors for 1 authorized call: no ready operation for exactly that call was consumed"
-      if isCallerKind kind then
-        let a := (kv? rest "a").getD "-"
-        let nums := argNums a
-        let f := fnOfKind kind
-        let (acct, role, caller) :=
-          if kind = "renrole" then (nums[1]?.getD 99, nums[0]?.getD 99, nums[1]?.getD 99)
-          else (nums[0]?.getD 99, nums[1]?.getD 99, nums[2]?.getD 99)
-        let members := fun (r : Nat) => prev.roles[r]?.getD []
-        -- who authorized
-        let fa : Option String :=
-          if caller = 0 then selfAuth a f
-          else if ¬ auth.contains s!"c{caller}" then some s!"site=controller.role.auth `{kind} {a}` accepted without {caller}'s authorization"
-          else none
-        -- who may
-        let fp : Option String :=
-          if kind = "renrole" then
-            (if ¬ (members role).contains caller then some s!"site=controller.role.renounce {caller} renounced role {role} which it did not hold" else none)
-          else
-            let isAdm : Bool := decide (prev.admin = some caller)
-            let viaRole : Bool := match (prev.radm[role]?).join with
-              | some ar => (members ar).contains caller
-              | none => false
-            if !isAdm && !viaRole then some s!"site=controller.role.permission `{kind} {a}`: {caller} is neither the admin nor a holder of the admin role of role {role}" else none
-        -- what changed: exactly that membership
-        let expd := (List.range prev.roles.length).map (fun r =>
-          let l := members r
-          if r ≠ role then l
-          else if kind = "grant" then (if l.contains acct then l else sortNat (acct :: l))
-          else l.erase acct)
-        let fe : Option String :=
-          if o.roles ≠ expd then some s!"site=controller.role.effect `{kind} {a}`: membership is {o.roles}, expected {expd}" else none
-        fin m (fa.orElse (fun _ => fp.orElse (fun _ => fe)))
-      else
-      if isAdminKind kind then
-        let a := (kv? rest "a").getD "-"
-        let f := fnOfKind kind
-        let fe : Option String :=
-          if kind = "setradm" then
-            let nums := argNums a
-            if (o.radm[nums[0]?.getD 99]?).join ≠ nums[1]? then some s!"site=controller.role.effect `setradm {a}` did not store the admin role" else none
-          else none
-        if fe.isSome then fin m fe else
-        match prev.admin with
-        | none => fin m (some s!"site=controller.admin.noadmin `{kind}` accepted although no admin is set")
-        | some 0 =>
-          -- self-administered: exactly this call must have consumed a ready operation
-          match parseMetasM m.defs ((kv? rest "sig").getD "none") with
-          | none => fin m (some s!"site=controller.admin.unconsumed `{kind} {a}` accepted on a self-administered controller without any payload for the controller")
-          | some (md :: _) =>
-            -- the descriptor matched with the (single) authorized call is the first one
-            match consumed m prev o f a md 0 auth with
-            | some why => fin m (some s!"site=controller.admin.unconsumed `{kind} {a}` accepted on a self-administered controller but {why}")
-            | none => fin m none
-          | some [] =>
-            fin m (some s!"site=controller.admin.unconsumed `{kind} {a}` accepted on a self-administered controller with 0 operation descriptors for 1 authorized call: no ready operation for exactly that call was consumed")
-        | some ad =>
-          fin m (if ¬ auth.contains s!"c{ad}" then some s!"site=controller.admin.auth `{kind}` accepted without the admin {ad}'s authorization" else none)
-      else if kind = "check" then
-        let metas := (parseMetasM m.defs ((kv? rest "metas").getD "e")).getD []
-        let ctxS := (kv? rest "ctxs").getD "e"
-        let ctxs := if ctxS = "e" then [] else ctxS.splitOn ";"
-        if metas.length < ctxs.length then
-          fin m (some s!"site=controller.checkauth.length __check_auth returned Ok for {ctxs.length} contexts with only {metas.length} operation descriptors")
-        else
-          let bad := (List.range ctxs.length).filterMap (fun j =>
-            match ctxCall m.defs (ctxs[j]?.getD "?"), metas[j]? with
-            | some (t, f, a), some md =>
-              if t ≠ 0 then some s!"context {j} is a call on another contract ({t})"
-              else (consumed m prev o f a md j auth).map (fun w => s!"context {j}: {w}")
-            | _, _ => some s!"context {j} is not a contract call")
-          fin m (match bad with
-            | [] => none
-            | w :: _ => some s!"site=controller.checkauth.unconsumed __check_auth returned Ok but {w}")
-      else if kind = "sched" then
-        let byy := (kvNat? rest "by").getD 99
-        let d := (kvNat? rest "d").getD 0
-        fin m (if (match prev.min with | some mn => decide (d < mn) | none => true) then some s!"site=controller.schedule.delay scheduled with delay {d} below the minimum delay in force"
-               else if ¬ (prev.roles[0]?.getD []).contains byy then some s!"site=controller.schedule.role {byy} scheduled without the proposer role"
-               else if ¬ auth.contains s!"c{byy}" then some s!"site=controller.schedule.auth scheduled without {byy}'s authorization" else none)
-      else if kind = "cancel" then
-        let byy := (kvNat? rest "by").getD 99
-        fin m (if ¬ (prev.roles[2]?.getD []).contains byy then some s!"site=controller.cancel.role {byy} cancelled without the canceller role"
-               else if ¬ auth.contains s!"c{byy}" then some s!"site=controller.cancel.auth cancelled without {byy}'s authorization" else none)
-      else if kind = "exec" then
-        let execs := prev.roles[1]?.getD []
-        let k := (kvNat? rest "k").getD 99
-        let f1 : Option String :=
-          if stCode prev k ≠ "R" ∨ stCode o k ≠ "D" then some s!"site=controller.execute.state executed operation {k} was {stCode prev k} and is {stCode o k}"
-          else none
-        if execs.isEmpty then fin m f1
-        else match (kv? rest "ex").bind String.toNat? with
-          | none => fin m (some "site=controller.execute.role executed without naming an executor although executors are configured")
-          | some x =>
-            fin m (if ¬ execs.contains x then some s!"site=controller.execute.role {x} executed without the executor role"
-                   else if ¬ auth.contains s!"c{x}" then some s!"site=controller.execute.auth executed without {x}'s authorization" else f1)
-      else if kind = "accept" then
-        fin m (match o.admin with
-          | some a => if ¬ auth.contains s!"c{a}" then some s!"site=controller.accept.auth {a} became admin without its authorization" else none
-          | none => some "site=controller.accept.admin accept left no admin")
-      else fin m none
+  | some o => checkCore m (parseLine (words opl)) o
 
 def machine : Machine where
   σ := M
   init := initM
   op := stepLine
   μ := Mon
-  minit := fun _ => { defs := [], prev := none, ghost := [] }
+  minit := fun _ => monInit
   mon := check
 
 end OZ.Drv.C09
